@@ -1766,6 +1766,16 @@ class Evaluator:
 
     def _call_value(self, fv, args, kwargs, st, node):
         a = fv.single_atom()
+        if a is not None and a[0] == "sub":
+            tab = a[1].single_atom()
+            if tab is not None and tab[0] == "dict" and 1 <= len(tab[1]) <= 6 and all(T.is_pure_const(k_) for k_, _v in tab[1]) and all(
+                    (v_.single_atom() or ("",))[0] in ("closure", "boundmethod", "global", "lambda") for _k, v_ in tab[1]):
+                # {"a": f, "b": g}[key](x): a dispatch table - f(x) if key == "a" else g(x) ... (a missing key raises: not a normal path)
+                chain = tab[1][-1][1]
+                for k_, v_ in reversed(tab[1][:-1]):
+                    chain = T.mk_ite(T.mk_cmp("==", a[2], k_), v_, chain)
+                if (chain.single_atom() or ("",))[0] in ("ite", "closure", "boundmethod", "global", "lambda"):
+                    return self._call_value(chain, args, kwargs, st, node)
         if a is not None and a[0] == "ite" and all((x.single_atom() or ("",))[0] in ("closure", "boundmethod", "global", "lambda", "ite") for x in (a[2], a[3])):
             # f = g if c else h; f(x)  ==  g(x) if c else h(x)
             mark = len(self.pc)
